@@ -1669,7 +1669,7 @@ func main() {
 	for i := 0; i < run.Scale(4, 25); i++ {
 		caseFromSeed("perm", run.Rand.U64())
 	}
-	for i := 0; i < run.Scale(150, 2500); i++ {
+	for i := 0; i < run.Scale(150, 1500); i++ {
 		caseFromSeed("burst", run.Rand.U64())
 	}
 	kinds := []string{"oci", "oci", "oci", "oci", "memory", "file"}
